@@ -46,6 +46,19 @@ CLAIMS = {
              "differential run over random file sets x every global position and by regenerated constants/expressions.",
         note="sort.Search and bytes.Replace are re-implemented from their documentation; the lazily built line table is modelled as computed eagerly.",
         technique="Lean 4 theorems (induction over AddFile, binary-search lemma, line table) + differential correspondence + regenerated facts"),
+    "C12": dict(
+        text="Machine-checked proof (Lean 4) that parsing commutes with moving the file: every reader primitive (c12_prims) and every "
+             "built-in terminal (c12_terminal) on the file shifted by b at position pos+b returns the shifted answer; the WHOLE parser "
+             "core does — for every grammar over all 16 combinators (memoization, curtailment, trims included), any environment, "
+             "context and state, the run on the shifted file from the shifted state is the shift of the run, with the same fuel, call "
+             "count and curtailing sets (c12_run, c12_run_calls); Parse returns the shifted tree and the byte-identical message when "
+             "the file set renders the same line:column (c12_parse, c12_parse_msg), which is proved for every file set built by "
+             "AddFile (c12_fileSet, c12_parse_placed: the file alone versus preceded by arbitrary files). The base offset must be >= 1 "
+             "because of SkipWhitespaces' nlPos==0 sentinel — shown necessary by c12_sentinel / c12_run_sentinel and guaranteed by the "
+             "regenerated fact fileSetFirstPos = 1. Tied to the code by a differential run of the workload grammars on the same "
+             "content alone and preceded by random files (trees, values, messages, call counts compared pairwise and with the model).",
+        note="text.File.SetOffset is exported: a direct SetOffset(0) would reach the sentinel collision; NewFileSet/AddFile/NewFile never do.",
+        technique="Lean 4 simulation proof (induction on fuel, shift commutes with every primitive, terminal and combinator) + differential correspondence + regenerated facts"),
     "C13": dict(
         text="Machine-checked proof (Lean 4), for every tree (any arity/depth, leaves, alternative lists, interpreters with or without "
              "checker/transformer capability, any callback / checker / transformer behaviour including failures at any node): Walk's "
